@@ -258,6 +258,13 @@ fn run_case(ctx: &mut Ctx, idx: u64, src: &str, class: &str, needs_process: bool
             }
         }
         Err((msg, loc)) => {
+            if msg.contains("arena capacity exceeded") {
+                // A mutated program is not checked for termination or growth: one that recurses
+                // while doubling a string fills the 256 MiB arena. Running out of memory is a
+                // resource outcome, not the interpreter tripping over a value of the wrong type.
+                ctx.out.inconclusive(idx, "arena exhausted by the program (resource outcome)", json!({"class": class, "at": loc}));
+                return;
+            }
             let sig = format!("panic|{}|{}", util::normalise_msg(&msg), util::panic_site(&loc));
             ctx.out.fail(idx, &sig, json!({"class": class, "panic": msg, "at": loc, "src": src}), replay);
         }
